@@ -394,6 +394,17 @@ func WriteFail(sub string, c interface{}, msg string) {
 	_ = os.WriteFile(filepath.Join(Cfg.OutDir, fmt.Sprintf("fail-%d.json", Cfg.Shard)), b, 0o644)
 }
 
+// WriteFailIfNone writes the fail file only if this run has not written one yet (used for
+// failures that are detected outside an oracle, so that a precise replay case is never overwritten).
+func WriteFailIfNone(sub string, c interface{}, msg string) {
+	S.mu.Lock()
+	n := S.Failed
+	S.mu.Unlock()
+	if n == 0 {
+		WriteFail(sub, c, msg)
+	}
+}
+
 // ---------------------------------------------------------------------------------
 // Sub-checks
 
